@@ -520,8 +520,20 @@ func (authType *ClientAuthType) MarshalJSON() ([]byte, error) {
 	return []byte(`"` + authType.String() + `"`), nil
 }
 
+// UnmarshalJSON implements the json.Unmarshaler interface; it accepts the
+// names written by MarshalJSON for the declared constants.
 func (authType *ClientAuthType) UnmarshalJSON(b []byte) error {
-	panic("unimplemented")
+	var name string
+	if err := json.Unmarshal(b, &name); err != nil {
+		return err
+	}
+	for t := NoClientCert; t <= RequireAndVerifyClientCert; t++ {
+		if t.String() == name {
+			*authType = t
+			return nil
+		}
+	}
+	return fmt.Errorf("unknown client auth type: %q", name)
 }
 
 // requiresClientCert reports whether the ClientAuthType requires a client
